@@ -310,6 +310,14 @@ where
         let mut r = Rng::new(seed, shard);
         for _ in 0..chunk {
             let (x, words) = gen_case::<P>(&mut r, which, split);
+            {
+                let mut w = vec![x];
+                w.extend_from_slice(&words);
+                rt::doing_set(
+                    &format!("{}::{}{}", P::NAME, poly_name(which), if split > 0 { format!("[{}]", split) } else { String::new() }),
+                    &w,
+                );
+            }
             rt::enter(slot, usize::MAX - 7, x, which as u64, split as u64);
             let got = rt::guarded(|| run_real::<P>(x, which, split, &words));
             rt::leave(slot);
